@@ -423,10 +423,6 @@ pub fn main_pexec(args: &[String]) -> i32 {
         // events of cases k0..k that were buffered but not yet flushed are lost with the child: rerun from the last flushed one
         let done_lines = std::fs::read_to_string(&args[1]).map(|s| s.lines().count()).unwrap_or(0);
         restarts += 1;
-        if restarts > 200 {
-            eprintln!("pexec: too many restarts");
-            return 2;
-        }
         let c = cases.get(k).cloned().unwrap_or(json!({}));
         // re-run the unflushed cases before k in a fresh child up to k-1 is implicit: restart at done_lines, but skip k
         if done_lines < k {
@@ -440,6 +436,12 @@ pub fn main_pexec(args: &[String]) -> i32 {
         writeln!(out, "{}", ev).unwrap();
         start = k + 1;
         if start >= cases.len() {
+            break;
+        }
+        // every crash or stall recorded so far is already a violation of the property; a change that makes MANY cases stall (each
+        // costs the watchdog's patience) must not turn the check into hours of waiting: the rest of this shard is left out
+        if restarts >= 3 {
+            eprintln!("pexec: {} cases crashed or stalled the worker; the remaining {} cases of this shard are not run", restarts, cases.len() - start);
             break;
         }
     }
